@@ -17,6 +17,11 @@ def drive(tier):
     N = 20000 if tier == "quick" else 400000
     txs = [gen.gen_tx(r, lens=[0, 1, 25, 75]) for _ in range(12)]
     txs = [d for d in txs if len(d["vin"]) <= 4 and len(d["vout"]) <= 4][:8] or [c06.TXD]
+    for d_ in txs:
+        if d_["wit"] == "noentries" or d_["wit"] is None:
+            d_["wit"] = None
+        else:
+            d_["wit"] = None            # the shared transactions are edited later: keep them witness-free
     built = [(d, gen.build_tx(d, False), gen.build_tx(d, True)) for d in txs]
     templ = [bytes(CScript([b"\x30" * 71, b"\x02" * 33])), b"\x76\xa9\x14" + bytes(20) + b"\x88\xac",
              b"\x52" + b"\x21" + b"\x02" * 33 + b"\x21" + b"\x03" * 33 + b"\x52\xae", b"\x4c\x05hello\x4d\x03\x00abc\x4e\x02\x00\x00\x00hi",
@@ -43,7 +48,15 @@ def drive(tier):
         for i in range(len(t) + 1):
             cases.append((t[:i], b"\x51", ()))
             cases.append((b"\x51", t[:i], ()))
-            cases.append((bytes(CScript([t[:i]])), bytes(CScript([0xa9, Hash160(t[:i]), 0x87])), ("P2SH",)))
+            cases.append((bytes(CScript([t[:i]])), b"\xa9\x14" + Hash160(t[:i]) + b"\x87", ("P2SH",)))
+    # CHECKSIG / CHECKMULTISIG reached with "public key" elements of every awkward length, and a non-empty signature
+    sigish = bytes(CScript([b"\x30\x06\x02\x01\x01\x02\x01\x01\x01"]))
+    for L in (0, 1, 32, 33, 34, 64, 65, 66, 67, 100, 255, 256, 519, 520):
+        keypush = bytes(CScript([bytes([2]) + bytes(L - 1)])) if L else b"\x00"
+        cases.append((sigish, keypush + b"\xac", ()))
+        cases.append((b"", keypush + b"\x76\xac", ()))
+        cases.append((b"\x00" + sigish, b"\x51" + keypush + b"\x51\xae", ("NULLDUMMY",)))
+        cases.append((b"\x00" + sigish, b"\x51" + keypush + keypush + b"\x52\xaf\x51", ()))
     for n in (1001, 1002, 1100, 1200, 1500):
         for tail in (b"\x4c", b"\x4d\x05", b"\x6a", b"\xff", b"\x05\x01", b"\x75" * 3 + b"\x6a"):
             cases.append((b"\x00" * n + tail, b"\x51", ()))
@@ -57,7 +70,7 @@ def drive(tier):
             red = rand_script(r.randrange(4))[:520]
             pre = rand_script(1)[:8] if r.random() < 0.3 else b""
             pre = pre if CScript(pre).is_valid() and CScript(pre).is_push_only() else b""
-            cases.append((pre + bytes(CScript([red])), bytes(CScript([0xa9, Hash160(red), 0x87])), tuple(r.choice(c06.FLAGSETS[1:]))))
+            cases.append((pre + bytes(CScript([red])), b"\xa9\x14" + Hash160(red) + b"\x87", tuple(r.choice(c06.FLAGSETS[1:]))))
         else:
             cases.append((b"", rand_script(0), ()))
     judged = 0
@@ -65,6 +78,22 @@ def drive(tier):
         d, txi, txm = built[i % len(built)]
         mutable = bool(i & 1)
         tx = txm if mutable else txi
+        if mutable and i % 97 == 5 and len(d["vin"]) < 8:
+            # the caller edits its own mutable transaction between verifications (same object)
+            from bitcoin.core import CMutableTxIn, CMutableOutPoint, CMutableTxOut
+            sig_, pk_ = sigish, b"\x21" + b"\x02" + bytes(32) + b"\xac"
+            call(se.VerifyScript, CScript(sig_), CScript(pk_), txm, 0, ())            # a signature check on the object before the edit
+            nin = {"hash": gen.rbytes(r, 32), "n": r.getrandbits(32), "script": b"", "seq": r.getrandbits(32)}
+            d["vin"].append(nin)
+            txm.vin.append(CMutableTxIn(CMutableOutPoint(nin["hash"], nin["n"]), CScript(b""), nin["seq"]))
+            d["vout"].append({"value": 1, "script": b"\x51"})
+            txm.vout.append(CMutableTxOut(1, CScript(b"\x51")))
+            built[i % len(built)] = (d, gen.build_tx(d, False), txm)
+            idx_new = len(d["vin"]) - 1
+            before = tx.serialize()
+            k, v = call(se.VerifyScript, CScript(sig_), CScript(pk_), tx, idx_new, ())
+            out = {"k": "ok", "same": tx.serialize() == before} if k == "ret" else dict(T._err(v), same=tx.serialize() == before)
+            R.add("vm.verify", {"sig": b2l(sig_), "pk": b2l(pk_), "flags": [], "tx": gen.tx_json(d), "idx": idx_new, "mutable": True}, out)
         idx = r.choice([0, len(d["vin"]) - 1, len(d["vin"]), len(d["vin"]) + 3]) if r.random() < 0.3 else 0
         before = tx.serialize()
         ssig, spk = CScript(sig), CScript(pk)
